@@ -634,6 +634,13 @@ func (env *SpecEnv) ident(name string) SpecVal {
 	if v, ok := env.vars[name]; ok {
 		return v
 	}
+	// a closure's contract evaluated at a call site: captured variable x is bound as &x (its cell)
+	if v, ok := env.vars["&"+name]; ok && v.Ty != nil {
+		if pt, ok := v.Ty.Underlying().(*types.Pointer); ok {
+			et := pt.Elem()
+			return SpecVal{T: fx.Load(env.state(), &Ptr{Kind: PHeap, Ref: v.T, ObjT: et, T: et}), Ty: et}
+		}
+	}
 	// captured variable of a closure
 	var fvs []*ssa.FreeVar
 	if fx.fn != nil {
